@@ -20,7 +20,7 @@ def fail' {α} (msg : String) : Outcome α := .error (.error msg)
 inductive Qual where
   | required
   | list
-  deriving Repr, BEq, DecidableEq, Inhabited
+  deriving Repr, DecidableEq, Inhabited
 
 /-- `TypeId`, in the declaration order of the Rust enum (this is its `Ord`). -/
 inductive TypeId where
@@ -30,7 +30,7 @@ inductive TypeId where
   | union (i : Nat)
   | enum (i : Nat)
   | input (i : Nat)
-  deriving Repr, BEq, DecidableEq, Inhabited
+  deriving Repr, DecidableEq, Inhabited
 
 namespace TypeId
 def rank : TypeId → Nat
@@ -49,12 +49,12 @@ end TypeId
 structure FieldType where
   id : TypeId
   quals : List Qual
-  deriving Repr, BEq, DecidableEq, Inhabited
+  deriving Repr, DecidableEq, Inhabited
 
 inductive FieldParent where
   | object (i : Nat)
   | interface (i : Nat)
-  deriving Repr, BEq, DecidableEq, Inhabited
+  deriving Repr, DecidableEq, Inhabited
 
 structure StoredField where
   name : String
@@ -62,34 +62,34 @@ structure StoredField where
   parent : FieldParent
   /-- `some none` = deprecated without reason -/
   deprecation : Option (Option String)
-  deriving Repr, BEq, DecidableEq, Inhabited
+  deriving Repr, DecidableEq, Inhabited
 
 structure StoredObject where
   name : String
   fields : List Nat
   implements : List Nat
-  deriving Repr, BEq, DecidableEq, Inhabited
+  deriving Repr, DecidableEq, Inhabited
 
 structure StoredInterface where
   name : String
   fields : List Nat
-  deriving Repr, BEq, DecidableEq, Inhabited
+  deriving Repr, DecidableEq, Inhabited
 
 structure StoredUnion where
   name : String
   variants : List TypeId
-  deriving Repr, BEq, DecidableEq, Inhabited
+  deriving Repr, DecidableEq, Inhabited
 
 structure StoredEnum where
   name : String
   variants : List String
-  deriving Repr, BEq, DecidableEq, Inhabited
+  deriving Repr, DecidableEq, Inhabited
 
 structure StoredInput where
   name : String
   fields : List (String × FieldType)
   isOneOf : Bool
-  deriving Repr, BEq, DecidableEq, Inhabited
+  deriving Repr, DecidableEq, Inhabited
 
 structure Schema where
   objects : List StoredObject := []
@@ -104,7 +104,7 @@ structure Schema where
   queryType : Option Nat := none
   mutationType : Option Nat := none
   subscriptionType : Option Nat := none
-  deriving Repr, BEq, DecidableEq, Inhabited
+  deriving Repr, DecidableEq, Inhabited
 
 /-- sorted-association-list insert (BTreeMap::insert) -/
 def namesInsert (k : String) (v : TypeId) : List (String × TypeId) → List (String × TypeId)
@@ -183,7 +183,7 @@ inductive GTy where
   | named (n : String)
   | list (t : GTy)
   | nonNull (t : GTy)
-  deriving Repr, BEq, DecidableEq, Inhabited
+  deriving Repr, DecidableEq, Inhabited
 
 namespace GTy
 /-- `resolve_field_type`: qualifiers from outer to inner -/
